@@ -132,7 +132,8 @@ def run_tlc(module, cfg, *, workers=None, timeout=900, on_emit=None, on_print=No
             '-metadir', os.path.join(work, 'meta'), '-noGenerateSpecTE',
             '-config', cfg_path]
     if simulate is not None:
-        cmd += ['-simulate', 'num=%d' % simulate]
+        # TLC counts num per worker
+        cmd += ['-simulate', 'num=%d' % max(1, -(-simulate // int(workers)))]
         if depth:
             cmd += ['-depth', str(depth)]
     if seed is not None:
